@@ -18,7 +18,7 @@
 //! The oracle (property C15 evaluated on the implementation's observables, independent of the
 //! Lean model) is computed from the op lines alone, so `--replay` re-evaluates it.
 //!
-//! Safety caps (both are C16's business, not C15's): every `*<digits>` run in an input handed to
+//! Safety caps (both are C16's business; since the F4/F16b fixes the real parser is safe anyway): every `*<digits>` run in an input handed to
 //! the real parser is cut to 6 digits unless it is one of the fixed capacity-overflow probes
 //! (`Vec::with_capacity(declared_len)`, DESIGN §7 F4), nesting depth of generated inputs stays
 //! <= 200, and the work runs on a 512 MiB stack.
@@ -28,7 +28,7 @@ use std::panic::{catch_unwind, AssertUnwindSafe};
 use tokio_util::codec::{Decoder, Encoder};
 use umharness::util::*;
 use undermoon::protocol::verif_export::resp::DataIndex;
-use undermoon::protocol::verif_export::stateless::{parse_resp, ParseError};
+use undermoon::protocol::verif_export::stateless::{parse_resp, ParseError, MAX_NESTING};
 use undermoon::protocol::{
     encode_resp, new_optional_multi_packet_codec, new_simple_packet_codec, Array, BinSafeStr, BulkStr,
     DecodedPacket, EncodeError, OptionalMulti, OptionalMultiPacketDecoder, OptionalMultiPacketEncoder,
@@ -108,6 +108,15 @@ fn well_formed(v: &V) -> bool {
     }
 }
 
+/// every array (nil ones included) sits at a nesting depth below MAX_NESTING
+fn nest_ok(v: &V, d: usize) -> bool {
+    match v {
+        Resp::Arr(Array::Nil) => d < MAX_NESTING,
+        Resp::Arr(Array::Arr(l)) => d < MAX_NESTING && l.iter().all(|e| nest_ok(e, d + 1)),
+        _ => true,
+    }
+}
+
 fn enc(v: &V) -> Vec<u8> {
     let mut b = Vec::new();
     let n = encode_resp(&mut b, v).expect("encode_resp into Vec");
@@ -150,7 +159,6 @@ fn rec_line(b: &[u8], lenient: bool) -> Result<(&[u8], usize), Rec> {
     Ok((&b[..lf - 1], lf + 1))
 }
 fn rec(b: &[u8], lenient: bool, depth: usize) -> Rec {
-    if depth > 4000 { return Rec::Invalid; }
     let t = match b.first() { Some(t) => *t, None => return Rec::Incomplete };
     let rest = &b[1..];
     match t {
@@ -175,6 +183,8 @@ fn rec(b: &[u8], lenient: bool, depth: usize) -> Rec {
                 }
             },
         },
+        // arrays (nil ones included) may be nested MAX_NESTING deep: depths 0..MAX_NESTING-1
+        b'*' if depth >= MAX_NESTING => Rec::Invalid,
         b'*' => match rec_line(rest, lenient) {
             Err(e) => e,
             Ok((l, n)) => match rec_len(l) {
@@ -397,7 +407,16 @@ fn exec(line: &str, cx: &mut Ctx, s: &mut Streams) {
             let b = enc(&v);
             s.op(line, &hex(&b));
             // oracle: round trip (with a trailing pipeline byte) for everything the encoder can frame
-            if well_formed(&v) {
+            if well_formed(&v) && !nest_ok(&v, 0) {
+                // an *expected* rejection: nested deeper than MAX_NESTING
+                let mut inp = b.clone();
+                inp.extend_from_slice(b"+x");
+                match real_dec(&inp) {
+                    (Obs::Invalid, left) if left == inp => {}
+                    (o, _) => fail(s, &format!("value nested deeper than MAX_NESTING was not rejected: {}", obs_str(&o, 0).chars().take(80).collect::<String>()), "", line),
+                }
+                s.stats.count("oracle.too_deep_rejected");
+            } else if well_formed(&v) {
                 let mut inp = b.clone();
                 inp.extend_from_slice(b"+x");
                 match real_dec(&inp) {
@@ -723,6 +742,25 @@ fn generate(args: &Args, s: &mut Streams, cx: &mut Ctx) {
         run(s, cx, format!("dec {}", hex(t.as_bytes())));
         run(s, cx, format!("parse {}", hex(t.as_bytes())));
         s.stats.count("gen.fixed");
+    }
+
+    // ---- nesting boundary: chains of 126..130 arrays around MAX_NESTING, three kinds of innermost value
+    for k in (MAX_NESTING - 2)..=(MAX_NESTING + 2) {
+        for leaf in [Resp::Integer(b"1".to_vec()), Resp::Arr(Array::Arr(vec![])), Resp::Arr(Array::Nil), Resp::Bulk(BulkStr::Nil)] {
+            s.case();
+            let mut v = leaf;
+            for i in 0..k { v = if i % 2 == 0 { Resp::Arr(Array::Arr(vec![v])) } else { Resp::Arr(Array::Arr(vec![Resp::Simple(b"a".to_vec()), v])) }; }
+            s.stats.count("gen.nesting_boundary");
+            let b = enc(&v);
+            run(s, cx, format!("enc {}", val_str(&v)));
+            run(s, cx, format!("dec {}", hex(&b)));
+            run(s, cx, format!("parse {}", hex(&b)));
+            // the verdict is given at the offending `*`, whatever follows or is still missing
+            let cut = b.len() / 2 + 3;
+            run(s, cx, format!("dec {}", hex(&b[..cut.min(b.len())])));
+            run(s, cx, format!("stream {} {}", hex(&b[..cut.min(b.len())]), hex(&b[cut.min(b.len())..])));
+            run(s, cx, format!("hm.run S {} {}", hex(&b[..7]), hex(&b[7..])));
+        }
     }
 
     // ---- values: encode, round trip, all prefixes, index trees -----------------------------
